@@ -70,8 +70,8 @@ func derivedHook(s *sm.Session, op *cs.Op, _ *cs.Outcome) *sm.Fail {
 	var cnt int
 	var ex bool
 	var first *document.Document
-	var each []*document.Document
-	var errAll, errCnt, errEx, errFirst, errEach error
+	var each, iter []*document.Document
+	var errAll, errCnt, errEx, errFirst, errEach, errIter error
 	var ab string
 	if errAll, ab = guardErr(func() (e error) { all, e = db.FindAll(cq); return }); ab != "" {
 		return &sm.Fail{Property: "C20", Clause: "no-panic-no-hang", Detail: "FindAll: " + ab}
@@ -89,6 +89,14 @@ func derivedHook(s *sm.Session, op *cs.Op, _ *cs.Outcome) *sm.Fail {
 		return db.ForEach(cq, func(d *document.Document) bool { each = append(each, d); return true })
 	}); ab != "" {
 		return &sm.Fail{Property: "C20", Clause: "no-panic-no-hang", Detail: "ForEach: " + ab}
+	}
+	if errIter, ab = guardErr(func() error {
+		return db.IterateDocs(cq, func(d *document.Document) error { iter = append(iter, d); return nil })
+	}); ab != "" {
+		return &sm.Fail{Property: "C20", Clause: "no-panic-no-hang", Detail: "IterateDocs: " + ab}
+	}
+	if (errAll != nil) != (errIter != nil) {
+		return bad("error-agreement", "FindAll err=%v IterateDocs err=%v", errAll, errIter)
 	}
 	if (errAll != nil) != (errCnt != nil) || (errAll != nil) != (errEx != nil) || (errAll != nil) != (errFirst != nil) || (errAll != nil) != (errEach != nil) {
 		return bad("error-agreement", "FindAll err=%v Count err=%v Exists err=%v FindFirst err=%v ForEach err=%v", errAll, errCnt, errEx, errFirst, errEach)
@@ -126,6 +134,16 @@ func derivedHook(s *sm.Session, op *cs.Op, _ *cs.Outcome) *sm.Fail {
 	for i := range eachDocs {
 		if !sameDoc(eachDocs[i], allDocs[i]) {
 			return bad("foreach", "ForEach position %d = %s, FindAll position %d = %s", i, cs.Show(eachDocs[i]), i, cs.Show(allDocs[i]))
+		}
+	}
+	// IterateDocs, the exported engine under ForEach/Count, visits the same sequence
+	iterDocs := run.FromDocuments(iter)
+	if len(iterDocs) != len(allDocs) {
+		return bad("foreach", "IterateDocs visited %d documents, FindAll returns %d", len(iterDocs), len(allDocs))
+	}
+	for i := range iterDocs {
+		if !sameDoc(iterDocs[i], allDocs[i]) {
+			return bad("foreach", "IterateDocs position %d = %s, FindAll position %d = %s", i, cs.Show(iterDocs[i]), i, cs.Show(allDocs[i]))
 		}
 	}
 	// early stop at k (a pure function of the case)
@@ -222,7 +240,7 @@ func TestC09(t *testing.T) {
 }
 
 func testC09Histories(t *testing.T) {
-	(&smCheck{property: "C09", kind: "c09", rule: ruleC09, quick: 2500, thorough: 60000, stepsQ: 20, stepsT: 30,
+	(&smCheck{property: "C09", kind: "c09", rule: ruleC09, quick: 3500, thorough: 150000, stepsQ: 20, stepsT: 30,
 		backends: []string{run.Bbolt, run.Bbolt, run.BadgerMem},
 		profile:  func(rt *rapid.T) *sm.Profile { return c09Profile() },
 		session:  c09Session,
